@@ -65,9 +65,12 @@ shape("_Call", name="str", args="opaque", kwargs="opaque")
 shape("Variable")
 shape("VariableItem")
 shape("ParamObj")
-shape("BaseDevice", max_sequence_duration=("opt", "int"), reusable_channels="bool")
-shape("BaseRegister")
-shape("MappableRegister")
+shape("Obj")
+shape("RegisterLayout", dimensionality="int", number_of_traps="int", traps_dict=("ref", "Obj"))
+shape("BaseDevice", max_sequence_duration=("opt", "int"), reusable_channels="bool", dimensions="int", max_atom_num=("opt", "int"),
+      min_layout_traps="int", max_layout_traps=("opt", "int"), max_layout_filling="real", max_radial_distance=("opt", "real"), min_atom_distance="real")
+shape("BaseRegister", dimensionality="int", qubits=("ref", "Obj"), layout=("opt", ("ref", "RegisterLayout")), qubit_ids=("list", "qid"))
+shape("MappableRegister", layout=("opt", ("ref", "RegisterLayout")), qubit_ids=("list", "qid"))
 shape("_BasisMap", _d=(("map", "qid", ("ref", "_QubitRef")), M))      # dict[QubitId, _QubitRef]
 shape("_DeclMap")                                                     # the dict returned by Sequence.declared_channels (abstract)
 shape("Sequence",
